@@ -35,7 +35,7 @@ MANIFEST_ENTRY = {
                   "the bytes the other end really wrote - not verified. C25_lockstep is about the abstract request/response machine (server "
                   "dispatch transcribed, exec abstract, sends appended whole as C25_rust_tx/C25_py_tx justify); real TCP, process start-up, "
                   "time-outs and the compiler inside DummyVM::eval are only exercised by end-to-end histories against a real server process "
-                  "(quick: 3 short histories, thorough: more, with scripts and outputs up to 65 000 bytes). Payloads above 65535 bytes "
+                  "(quick: 4 histories, thorough: 10 fixed + 20 generated, scripts up to ~60 KB and answers up to exactly 65535 bytes). Payloads above 65535 bytes "
                   "desynchronise the stream (Rust size field saturates, Python to_bytes raises): recorded finding " + FINDING_BIG +
                   ", needs a protocol change; its end-to-end witness runs in a child process because the client exits on it.",
     "technique": "Lean 4 proof (induction over fuelled read/write loops, message lists and histories) + differential correspondence on both "
@@ -157,12 +157,13 @@ E2E_QUICK = [
     ("3.11", ["out:5", "out:0", "src:10", "out:300"]),
     ("3.11", ["out:20000", "out:1", "src:3000", "out:65000", "out:2"]),
     ("3.8", ["src:12000", "out:40000", "out:7"]),
+    ("3.10", ["out:65526", "out:1", "out:65527", "src:15000", "out:2"]),     # answers of 65534 and 65535 bytes (tag 3 + n + 5)
 ]
 E2E_THOROUGH = E2E_QUICK + [
     ("3.7", ["out:1", "out:65000", "out:65000", "src:15000", "out:3"]),
     ("3.9", ["out:255", "out:256", "out:65279", "out:0", "src:255", "src:256"]),
     ("3.10", ["src:15000", "src:15000", "out:60000", "src:1", "out:1"]),
-    ("3.11", ["out:65529", "out:1", "out:65530", "out:2"]),
+    ("3.11", ["out:65526", "out:1", "out:65527", "out:2"]),     # answers of 65534 and 65535 bytes (tag 3 + n + 5)
     ("3.11", ["out:1000"] * 12),
     ("3.11", ["src:100", "out:100", "src:14000", "out:64000", "src:100", "out:100", "src:14000", "out:64000"]),
 ]
@@ -235,7 +236,7 @@ def run(ctx):
                        "with each other / with the model: a message with such an instruction is understood differently by the two ends",
                        "rows": rows, "error": tgen_err, "tables": tables}, no_input=not rows)
     # ---- stage 1: generator + Rust end
-    n = 6000 if thorough else 1200
+    n = 24000 if thorough else 1200
     rows = []
     crow = core.corpus_rows(prop)
     if crow:
@@ -318,7 +319,18 @@ def run(ctx):
     # ---- end to end
     e2e = []
     e2e_bad = None
-    for ver, steps in (E2E_THOROUGH if thorough else E2E_QUICK):
+    hists = list(E2E_THOROUGH if thorough else E2E_QUICK)
+    if thorough:
+        import random
+        rnd = random.Random(ctx.seed)
+        pool_out = [0, 1, 2, 100, 255, 256, 1000, 20000, 65000, 65526, 65527]
+        pool_src = [0, 1, 100, 3000, 12000, 15000]
+        for _ in range(20):
+            steps = []
+            for _ in range(rnd.randint(2, 9)):
+                steps.append("out:%d" % rnd.choice(pool_out) if rnd.random() < 0.7 else "src:%d" % rnd.choice(pool_src))
+            hists.append((rnd.choice(list(core.PYTHONS)[:5]), steps))      # 3.7 .. 3.11: the code generator's targets
+    for ver, steps in hists:
         r = run_e2e(bindir, ver, steps)
         e2e.append(r)
         okl = [l for l in r["lines"] if l.endswith("\tok")]
@@ -358,6 +370,9 @@ def run(ctx):
             ctx.print_known(e, f"{e.get('summary', '')} [{len(hits)} case(s) of this class in this run]")
     # ---- verdict
     if res.spec_viol:
+        # prefer a failing input outside the recorded class, and a short one
+        known_ids = {e["id"] for e in ctx.known_findings()}
+        res.spec_viol.sort(key=lambda x: (x[5] in known_ids, len(x[1])))
         v = shrink(ctx, res.spec_viol[0], bindir) or res.spec_viol[0]
         ctx.violation({"kind": "implementation-violates-spec", "case_id": v[0], "input": v[1], "impl": v[2], "model": v[3], "spec": v[4],
                        "inK": v[5], "others": [x[1][:2000] for x in res.spec_viol[1:6]],
@@ -444,6 +459,7 @@ def search_more(ctx, res, bindir):
     done, mrows = eval_rows(bindir, cands)
     r2 = core.compare(done, mrows, {e["id"] for e in ctx.known_findings()})
     if r2.spec_viol:
+        r2.spec_viol.sort(key=lambda x: len(x[1]))
         v = shrink(ctx, r2.spec_viol[0], bindir) or r2.spec_viol[0]
         return {"kind": "implementation-violates-spec", "found_by": "search around the disagreeing cases / fixed battery", "case_id": v[0],
                 "input": v[1], "impl": v[2], "model": v[3], "spec": v[4], "inK": v[5],
